@@ -111,20 +111,28 @@ func vMarshalQPR(q *seq.QPR) ([]byte, error) {
 	return []byte{'Q', byte(len(vQPRs) - 1)}, nil
 }
 func vUnmarshalQPR(b []byte, dst *seq.QPR) error {
+	// as json.Unmarshal fills an existing value: scalars and slices are replaced, a map that already
+	// exists is kept and keys are added or overwritten (never removed), elements with their own
+	// UnmarshalJSON decode themselves
 	src := vQPRs[b[1]]
-	*dst = seq.QPR{IDs: append(seq.IDSources(nil), src.IDs...), Total: src.Total, Errors: src.Errors}
+	dst.IDs = append(dst.IDs[:0], src.IDs...)
+	dst.Total = src.Total
+	dst.Errors = src.Errors
+	if src.Histogram != nil {
+		if dst.Histogram == nil {
+			dst.Histogram = map[seq.MID]uint64{}
+		}
+		for k, v := range src.Histogram {
+			dst.Histogram[k] = v
+		}
+	}
+	dst.Aggs = dst.Aggs[:0]
 	for _, raw := range vQPRAggs[b[1]] {
 		var a seq.AggregatableSamples
 		if err := a.UnmarshalJSON(raw); err != nil {
 			return err
 		}
 		dst.Aggs = append(dst.Aggs, a)
-	}
-	if src.Histogram != nil {
-		dst.Histogram = map[seq.MID]uint64{}
-		for k, v := range src.Histogram {
-			dst.Histogram[k] = v
-		}
 	}
 	return nil
 }
